@@ -73,6 +73,22 @@ FixedAcceptableSet(fwd, rev, bidir) == {b \in {NoBlock, NotFeas} : FixedAcceptab
 (* line: what the line delivered (signal / (ASE + NLI) referred to 0.1 nm), tx: the mode's transmitter OSNR,   *)
 (* adds: one entry per add/drop stage the path crosses - each exactly once.                                   *)
 Composed(line, tx, adds) == line + tx + SumSeq(adds)
+
+(* Which OSNR an add/drop stage contributes is CONFIGURATION:                                                  *)
+(*   stage = [kind, sel, profiles, dflt]                                                                        *)
+(*     kind      "add" or "drop" (the ROADM next to the emitting / receiving transceiver)                       *)
+(*     profiles  the impairment profiles of the ROADM's type AS LISTED: sequence of [id, kind, inv]             *)
+(*     sel       id of the profile the topology selects for this pair of degrees, NONE when it selects nothing  *)
+(*               (ids are arbitrary integers: 0 is an id like any other)                                        *)
+(*     dflt      reciprocal of (add_drop_osnr + 10log10 2), used when the type lists no profile of that kind     *)
+(* A selected profile is used whatever its id; otherwise the first listed profile of the stage's kind.          *)
+StageInv(st) ==
+  IF st.sel # NONE
+  THEN LET i == CHOOSE j \in 1..Len(st.profiles) : st.profiles[j].id = st.sel IN st.profiles[i].inv
+  ELSE LET same == {j \in 1..Len(st.profiles) : st.profiles[j].kind = st.kind}
+       IN  IF same = {} THEN st.dflt ELSE st.profiles[SetMin(same)].inv
+StageOK(st) == st.sel = NONE \/ \E j \in 1..Len(st.profiles) : st.profiles[j].id = st.sel /\ st.profiles[j].kind = st.kind
+AddsOf(stages) == [k \in 1..Len(stages) |-> StageInv(stages[k])]
 CompositionOK(rx, line, tx, adds, tol) == Within(rx, Composed(line, tx, adds), tol)
 
 -----------------------------------------------------------------------------
